@@ -25,9 +25,10 @@ class ASPOperation(ASPElement):
         Operators.ABSOLUTE_VALUE: '|'
     }
 
-    def __init__(self, operator: Operators, *operands: ASPElement):
+    def __init__(self, operator: Operators, *operands: ASPElement, negated: bool = False):
         self.operator = operator
         self.operands = [operand for operand in operands]
+        self.negated = negated
 
     def get_atom_list(self) -> list[ASPAtom]:
         atom_list: list[ASPAtom] = []
@@ -47,7 +48,7 @@ class ASPOperation(ASPElement):
         return ASPOperation.operators[self.operator]
 
     def __str__(self) -> str:
-        string = ''
+        string = 'not ' if getattr(self, 'negated', False) else ''
         for operand in self.operands:
             if not isinstance(operand, ASPOperation):
                 string += str(operand)
